@@ -573,11 +573,11 @@ PROPS["C11"] = dict(
 
 PROPS["C02"] = dict(
     title="Acknowledged mode recovers from any bounded loss, duplication and reordering",
-    module="Cfdp.Props.C02t",
+    module="Cfdp.Props.C02u",
     namespace="Cfdp.Seg",
     theorems=["C02_round_completes", "C02_gaps_answered", "Cfdp.Recv.C02_finishes_when_complete", "Cfdp.Recv.C02_never_waits_complete", "Cfdp.Recv.C02_complete_is_success", "Cfdp.Recv.C02_size_check_passes", "Cfdp.Loop.C02_no_integrity_fault", "Cfdp.Net.C02_two_party_no_integrity_fault", "Cfdp.Loop.C02_recv_completes", "Cfdp.Loop.C02_send_completes", "Cfdp.Net.C02_two_party_completes",
               "Cfdp.Loop.C02_sender_answers_nak", "Cfdp.Loop.C02_receiver_recovers", "Cfdp.Loop.C02_recovery_round",
-              "Cfdp.Loop.C02_full_round", "Cfdp.Loop.C02_full_round_after_wake"],
+              "Cfdp.Loop.C02_full_round", "Cfdp.Loop.C02_full_round_after_wake", "Cfdp.Loop.C02_timer_round"],
     engines=["daemon", "recv", "send", "net"],
     design="§6 C02",
     technique="Lean 4 proofs of the recovery steps over the segment / receiver / sender models; the composition over a lossy link is checked on two real daemons under a virtual clock with bounded fault plans",
@@ -609,6 +609,9 @@ PROPS["C02"] = dict(
                 "logic stays below the limit from one NAK to the next at the same instant); all of them reach the sender, where every piece of every request is queued (naks_arrive); "
                 "the sender answers them all; the answers reach the receiver in any order, at any times, with any duplicates: Finished / NoError / Complete / Retained "
                 "(C02_full_round, C02_full_round_after_wake with C08_exact discharging the queue hypothesis; a concrete two-segment transfer with a lost segment is the example). "
+                "The timer's part of it (Props/C02u.lean): for a receiver in mid-recovery with nothing to transmit whose NAK timer runs out below its limit (the inactivity limit "
+                "not reached either), the loop iteration of that expiry leaves the data untouched, rebuilds the queue and leaves the counter room (wake_rebuilds), so that expiry "
+                "followed by a round in which nothing is lost completes the delivery (C02_timer_round). "
                 "PARTIAL: that such a round comes about - the NAK timer fires, the NAK and its answers get through - whenever fewer than `limit` consecutive transmissions "
                 "of any PDU are lost is a statement about the timers of two transaction models, the link and the scheduler; C03 / C17 bound the timers, C08 gives the NAK's "
                 "content, but the composition over a lossy fair schedule is not one theorem here. It is checked on the real code: the daemon engine runs acknowledged transfers between two real daemons with every kind of fault "
@@ -620,5 +623,5 @@ PROPS["C02"] = dict(
           "per-side steps. Non-trivial = a routing line with at least one delivered PDU / a PDU emitted."
           " net engine (300 quick / 3000 thorough two-party histories): one real SendTransaction and one real RecvTransaction joined by a simulated link that delivers only PDUs the other side emitted (in order, lost, duplicated, reordered, as stragglers), random schedules of transmissions, deliveries, timer expiries and user requests at both sides, then a loss-free fair phase on the shared virtual clock until both have ended; every call is answered in lockstep by the Lean sender and receiver models (ops net s / net r), the per-side oracles of the send / recv engines keep running, and two-party oracles are added: C02 recovers / same_outcome (acknowledged mode, losses confined to a zero-time phase, default handlers: both sides report success), C03 net_bounded / net_never_stuck, C04 sender_success_only_after_receiver, C01 two_party_file."),
     assumptions=["bounded faults: fewer than `limit` faults per transfer, delays below the timers (as the property states)"],
-    unproved=["that a recovery round in which nothing is lost comes about within the limits under bounded loss (the NAK timer fires - bounded by C03/C17 -, the NAKs and their answers get through): checked dynamically by the daemon and net engines; proved are 'delivery implies completion' (receiver and two-party model) and 'a recovery round in which nothing is lost completes the delivery', through both models and the link (C02_full_round)"],
+    unproved=["that under bounded loss a NAK-timer expiry below the limit is followed by a round in which nothing is lost - and the analogous rounds for a lost EOF, Finished PDU or ACK - within the limits: checked dynamically by the daemon and net engines; proved are 'delivery implies completion' (receiver and two-party model) and 'a recovery round in which nothing is lost completes the delivery', through both models and the link (C02_full_round)"],
 )
